@@ -167,6 +167,8 @@ def check(tree, rep, tier='quick', seed=0):
                     status_enum[y] = fs.attrs['enum']
                     rep.ob('R17.6', f'{y}/filing-status-has-five', len(status_enum[y].members) == 5,
                            f'filing status enum of {y} has members {status_enum[y].members}', fs.where)
+    # ---- R17.7 every input / line / mapping object belongs to exactly one form instance
+    shared_rule(cat, rep)
     # ---- R17.5 threshold tables
     n_tables = n_pairs = 0
     for y in years:
@@ -232,6 +234,30 @@ def check(tree, rep, tier='quick', seed=0):
     rep.floor('input and line names', n_names, 3300)
     rep.floor('threshold tables keyed by status', n_tables, 15)
     rep.count('(table, status) pairs', n_pairs)
+
+
+def shared_rule(cat, rep, rule='R17.7'):
+    n = 0
+    for y in cat.years:
+        owner = {}
+        for fr in cat.forms(y):
+            if fr.rec is None:
+                continue
+            for table, what in ((fr.inputs, 'input'), (fr.fields, 'line'), (fr.pdf_fields if isinstance(fr.pdf_fields, list) else [], 'PDF mapping')):
+                for r in table:
+                    if not isinstance(r, Rec):
+                        continue
+                    n += 1
+                    nm = r.attrs.get('_name', r.attrs.get('pdf_field_name'))
+                    prev = owner.get(id(r))
+                    ok = prev is None
+                    if what != 'PDF mapping' and ok:
+                        ok = r.attrs.get('_form') is fr.rec
+                    rep.ob(rule, f'{y}/{fr.name}/{what}:{nm}/own-object', ok,
+                           f'the {what} object {nm!r} of {fr.name} is shared with {prev or "another form instance"} (created once, e.g. at module level): '
+                           f'the instance built last rebinds it, the other silently loses the line - the result then depends on the order in which forms are added', r.where)
+                    owner.setdefault(id(r), fr.name)
+    rep.count('objects checked for single ownership', n)
 
 
 def _kname(k):
